@@ -608,8 +608,8 @@ func init() {
 					keys[i] = sp.Univ[x]
 				}
 				for pi, pat := range runPatterns(len(keys)) {
-					if ctx.Tier == "quick" && (si+pi)%3 != 0 && len(keys) == 4 {
-						continue // quick: a third of the value patterns for 4-key sets
+					if (si+pi)%3 != 0 && len(keys) >= 4 {
+						continue // a third of the value patterns for sets of 4 and 5 keys
 					}
 					v := &ValSpec{Kind: "str16", Strs: make([]string, len(pat))}
 					for i, x := range pat {
@@ -645,11 +645,11 @@ func init() {
 		},
 		Finish: func(tier string, m *Merged, cov map[string]interface{}) {
 			total := 0
-			for _, s := range exhSpaces(tier) {
+			for _, s := range exhSpaces(p.exhTier(tier)) {
 				total += len(s.Subsets)
 			}
 			cov["exhaustive_part"] = map[string]interface{}{"key_sets_in_scope": total, "key_sets_executed": m.C("exhaustive:key_sets"),
-				"what": "every key set of size <=k over the small universes with String16 values in adjacent-equality patterns (quick: a third of the patterns for 4-key sets) and without values; every universe string as start"}
+				"what": "every key set of size <=k over the small universes with String16 values in adjacent-equality patterns (a third of the patterns for sets of 4 and 5 keys; thorough: universe A up to 5 keys, universe B up to 3) and without values; every universe string as start"}
 		},
 	}
 	register(def)
